@@ -3,6 +3,7 @@ Subject: the real cargo-libcnb executable built from /repo. Exploration over gen
 x invocations, and fault enumeration: two-run histories with EVERY crash point of the first run
 (strace SIGKILL injection before each mutating call under the package directory) and pre-seeded
 foreign content; the second run must give exactly the result of packaging into an empty directory."""
+import itertools
 import json
 import os
 import re
@@ -339,6 +340,41 @@ def seed_foreign(ws, root, pkgdir, kind):
 SEEDS = ["foreign-files-in-every-output-dir", "extra-files", "dir-where-detect-goes", "file-where-bin-goes", "dangling-detect", "old-composite-package-toml"]
 
 
+def family():
+    """composite-only workspaces (nothing to compile): every DAG on three composites x every
+    assignment of ids (so that the alphabetical order of ids agrees and disagrees with the
+    dependency order in every way); one buildpack lives in a directory literally named `target`"""
+    dirs = ["buildpacks/target", "meta/x", "meta/deep/y"]
+    edges = [(1, 0), (2, 0), (2, 1)]
+    out = []
+    for mask in range(8):
+        for perm in itertools.permutations(["acme/a", "acme/b", "acme/c"]):
+            bps = []
+            for k in range(3):
+                deps = [f"libcnb:{perm[j]}" for (i, j) in edges if i == k and mask & (1 << edges.index((i, j)))]
+                bps.append({"id": perm[k], "dir": dirs[k], "kind": "composite", "deps": deps + ["docker://docker.io/external/example:1.2.3"]})
+            out.append({"name": f"g{mask}-{''.join(x[-1] for x in perm)}", "ignore": "packaged/\n", "package_dir": None, "buildpacks": bps})
+    return out
+
+
+def family_job(arg):
+    ws, scratch = arg
+    root = os.path.join(scratch, ws["name"])
+    shutil.rmtree(root, ignore_errors=True)
+    generate(ws, root)
+    v = []
+    n = 0
+    for cwd_rel in [""] + [bp["dir"] for bp in ws["buildpacks"]]:
+        shutil.rmtree(pkgdir_of(ws, root), ignore_errors=True)
+        r = invoke(ws, root, cwd_rel)
+        n += 1
+        label = f"{ws['name']} {[(bp['id'], bp['dir'], [d for d in bp['deps'] if d.startswith('libcnb:')]) for bp in ws['buildpacks']]} from {cwd_rel or '<root>'}"
+        for sig, what in judge_clean(ws, root, cwd_rel, False, None, r, label):
+            v.append((sig, what, {"workspace": ws["name"], "cwd": cwd_rel, "release": False, "package_dir": None}))
+    shutil.rmtree(root, ignore_errors=True)
+    return n, v
+
+
 def run(ctx):
     res = Result(ctx, "fault_enumeration")
     build_packager()
@@ -349,6 +385,15 @@ def run(ctx):
     if ctx.replay:
         rp = json.load(open(ctx.replay))["replay"]
         workspaces = [w for w in [W1, W2, W3, W4, W5, W6] if w["name"] == rp["workspace"]]
+        fam = [w for w in family() if w["name"] == rp["workspace"]]
+        for w in fam:
+            n, v = family_job((w, ctx.scratch))
+            for sig, what, r in v:
+                if r["cwd"] == rp["cwd"]:
+                    print("DIFFERENCE:", what)
+                    res.violation(sig, what, r)
+        if fam:
+            return res.done()
         crash_ws = workspaces if rp.get("fault") or rp.get("seed") else []
     evals = 0
     outcomes = set()
@@ -387,6 +432,13 @@ def run(ctx):
             for sig, what in judge_clean(ws, root, cwd_rel, release, pk, r, label + " (re-run over its own output)"):
                 res.violation("rerun:" + sig, what, {"workspace": ws["name"], "cwd": cwd_rel, "release": release, "package_dir": pk})
             shutil.rmtree(pkgdir, ignore_errors=True)
+    # 1b. the composite-only family, every invocation directory
+    fam = [] if ctx.replay else family()
+    with ProcessPoolExecutor(max_workers=16) as ex:
+        for n, v in ex.map(family_job, [(w, ctx.scratch) for w in fam]):
+            evals += n
+            for sig, what, r in v:
+                res.violation(sig, what, r)
     # 2. crash points of a first run + foreign content
     n_points = {}
     jobs = []
@@ -423,12 +475,13 @@ def run(ctx):
                     print("DIFFERENCE:", what)
                 res.violation(("after-crash:" if job[3] else "over-foreign-content:") + sig, what, {"workspace": job[0]["name"], "fault": list(job[3]) if job[3] else None, "seed": job[4]})
     res.cov("evaluations", evals)
-    res.cov("distinct_nontrivial", len(jobs) + len(workspaces))
+    res.cov("distinct_nontrivial", len(jobs) + len(workspaces) + len(fam))
+    res.cov("composite_family_workspaces", len(fam))
     res.cov("crash_points", n_points)
     res.cov("workspaces", [w["name"] for w in workspaces])
     res.cov("distinct_outcomes", sorted(outcomes))
     res.cov("determinism_replays", len(crash_ws))
-    res.cov("rule", "generated workspaces of trivial crates (libcnb.rs buildpacks with 1-3 binary targets incl. an ambiguous one, composites with libcnb:/relative/docker/urn dependencies forming a DAG, a non-libcnb buildpack directory, an ignore file for the output directory) packaged by the real cargo-libcnb from the root and from every buildpack directory, dev/release, default/custom/outside package dir, each also re-run over its own output; then for the crash workspaces every mutating syscall of the packager under the package directory is a crash point (SIGKILL before the call) followed by a complete second run, plus 5 kinds of foreign pre-seeded content; distinct_nontrivial = crash points + seeds + workspaces")
+    res.cov("rule", "generated workspaces of trivial crates (libcnb.rs buildpacks with 1-3 binary targets incl. an ambiguous one, composites with libcnb:/relative/docker/urn dependencies forming a DAG, a non-libcnb buildpack directory, an ignore file for the output directory) packaged by the real cargo-libcnb from the root and from every buildpack directory, dev/release, default/custom/outside package dir, each also re-run over its own output; plus a composite-only family: every DAG on three composite buildpacks x every assignment of three ids (alphabetical id order vs dependency order in every combination; one buildpack in a directory named `target`), from the root and from every buildpack directory; then for the crash workspaces every mutating syscall of the packager under the package directory is a crash point (SIGKILL before the call) followed by a complete second run, plus 5 kinds of foreign pre-seeded content; distinct_nontrivial = crash points + seeds + workspaces")
     res.cov("bound", {"first_run_crashes": 1, "target": TRIPLE})
     res.cov("exhaustive", True)
     res.sample({"workspace": W1})
